@@ -247,10 +247,6 @@ def oracle(c: Ctx, program, style, mode):
             o0 = "pre" if reg[s0]["pre"] else "run"
             o1 = "pre" if reg[s1]["pre"] else "run"
             cls = "same-origin" if o0 == o1 else "pre-vs-run"
-            if style.startswith("preconstruct") and o0 != o1:
-                # Events built before Simulation() exists predate the documented reset of the
-                # creation counter; their order relative to later-created events is not defined.
-                continue
             out.append((f"tie-order/{cls}",
                         f"at {n0}ns event seq={s0} ({o0}-created) was delivered before seq={s1} ({o1}-created) "
                         f"although seq={s1} was created first"))
@@ -276,8 +272,6 @@ def oracle(c: Ctx, program, style, mode):
             continue
         if auto and r["daemon"] and (last_key is None or key > last_key):
             continue  # daemon left over after auto-termination
-        if auto and r["daemon"] and style.startswith("preconstruct"):
-            continue  # depends on the (undefined) order relative to run-created events
         out.append(("lost", f"live event seq={seq} time={r['time']}ns target={r['target']} "
                             f"daemon={r['daemon']} was never delivered"))
         break
@@ -304,11 +298,7 @@ def oracle(c: Ctx, program, style, mode):
                     # pending while its turn (time, creation) still lay ahead of this delivery
                     if r2["time"] < r2["clock"]:
                         continue
-                    if style.startswith("preconstruct") and r2["pre"] != reg[seq]["pre"]:
-                        # relative creation order undefined (see tie-order): compare by time only
-                        if r2["time"] < reg[seq]["time"]:
-                            continue
-                    elif (r2["time"], s2) < (reg[seq]["time"], seq):
+                    if (r2["time"], s2) < (reg[seq]["time"], seq):
                         continue
                 pending = True
                 break
